@@ -569,7 +569,10 @@ def run_case(case, ctx):
                     try:
                         m = blocks_mismatch(r)
                     except Exception as ex:  # noqa: BLE001
-                        ctx.exception(ex, prefix="%s:%s:blocks" % (op, _feat(case)))
+                        if op == "eye" and _feat(case) == "M>N&chunk>N":
+                            ctx.violation(_lab(case, ""), "blocks: %s: %s" % (type(ex).__name__, str(ex)[:300]))
+                        else:
+                            ctx.exception(ex, prefix="%s:%s:blocks" % (op, _feat(case)))
                         m = None
                     if m:
                         ctx.violation(_lab(case, m[0]), m[1], chunks=str(r.chunks))
